@@ -38,6 +38,7 @@ def _world(repo):
         allc = []
         for m in contract_modules():
             allc.extend(P.load_contracts(w, m))
+        w.lemmas = {c.target: c for c in allc if c.kind == "lemma"}
         for c in allc:
             if c.kind != "lemma" and c.modular:
                 if c.target in w.contracts:
@@ -109,6 +110,8 @@ def main():
         traceback.print_exc()
         return 3
     mine = [c for c in allc if prop in c.props]
+    used_lemmas = {ln for c in mine for lst in c.uses.values() for (ln, _f) in lst}
+    mine += [c for c in allc if c.kind == "lemma" and c.target in used_lemmas and c not in mine]
     if args.only:
         mine = [c for c in mine if args.only in c.name or args.only in c.target]
     proved = [c for c in mine if not c.bounded_only and not c.assumed]
@@ -174,7 +177,7 @@ def main():
         functions.append({"function": r["target"], "contract": cname, "file": r.get("file"), "line": r.get("lineno"), "source_sha256": r.get("source_sha256"), "kind": r["kind"], "paths": r["covers"]["paths"], "obligations": len(r["obligations"])})
         for k in ("paths", "sat", "unknown"):
             covers[k] += r["covers"].get(k, 0)
-        if r["covers"]["paths"] == 0 or (r["covers"]["sat"] == 0 and r["kind"] != "lemma"):
+        if r["covers"]["paths"] == 0 or (r["covers"]["sat"] + r["covers"]["unknown"] == 0 and r["kind"] != "lemma"):
             errors.append(f"{cname}: vacuous (no feasible path: contradictory requires?)")
         for t in r.get("trusted", []):
             trusted.add(t)
